@@ -78,3 +78,76 @@ def check_forms(f, p_int, forms, report, label, inp):
             report(f"{label} depends on the container / dtype in which the pressure is given", dict(**inp, p=float(p_int), form=name),
                    [float(x) for x in got[:3]], want)
     return n
+
+
+def _series(index=None):
+    def mk(a):
+        import pandas as pd
+        return pd.Series(a, index=index(len(a)) if index else None)
+    return mk
+
+
+def _readonly(a):
+    b = np.array(a, float)
+    b.setflags(write=False)
+    return b
+
+
+# ways in which a caller holds SEVERAL pressures (all accepted by the unchanged library): shape and labels must not matter
+VECTOR_FORMS = [
+    ("2-D float array (time x node field)", lambda a: np.array(a, float).reshape(2, -1)),
+    ("pandas Series, default labels", _series()),
+    ("pandas Series whose integer labels are a permutation of the positions (a sorted / shuffled table column)", _series(lambda n: list(range(n - 1, -1, -1))[1:] + [n - 1])),
+    ("pandas Series with string labels", _series(lambda n: [f"r{i}" for i in range(n)])),
+    ("uint32 array", lambda a: np.array(a).astype(np.uint32)),
+    ("uint64 array", lambda a: np.array(a).astype(np.uint64)),
+    ("read-only float array", _readonly),
+    ("non-contiguous view", lambda a: np.repeat(np.array(a, float), 2)[::2]),
+]
+
+
+def check_vector_forms(f, ps_int, report, label, inp, forms=None, skip=()):
+    """f: pressures -> values.  ps_int: an even number (>= 4) of integer-valued pressures.  Compares f on each container form with the
+    element-by-element scalar calls f(float(p)); also requires the input's shape and an unmodified input.  Returns #evaluations."""
+    ps_int = [float(int(q)) for q in ps_int]
+    want = np.array([float(np.ravel(np.asarray(f(q), float))[0]) for q in ps_int])
+    n = 0
+    for name, mk in (forms or VECTOR_FORMS):
+        if any(sk in name for sk in skip):
+            continue
+        n += 1
+        arg = mk(ps_int)
+        before = np.array(arg, float).copy()
+        try:
+            got = np.asarray(f(arg), float)
+        except Exception as e:  # noqa: BLE001
+            report(f"{label} fails when the pressures are given as a {name}", dict(**inp, pressures=ps_int, form=name), repr(e)[:160], [float(x) for x in want[:4]])
+            continue
+        if not np.array_equal(np.array(arg, float), before):
+            report(f"{label} modifies the caller's pressures ({name})", dict(**inp, pressures=ps_int, form=name), "input changed", "input unchanged")
+        if got.shape != np.shape(arg) or not np.allclose(got.ravel(), want, rtol=1e-6 if "uint" in name else 1e-12, atol=1e-300):
+            bad_at = int(np.argmax(np.abs(got.ravel() - want))) if got.size == want.size else -1
+            report(f"{label} does not return, element by element, what the scalar call returns when the pressures are given as a {name}",
+                   dict(**inp, pressures=ps_int, form=name, worst_element=bad_at), dict(shape=list(got.shape), values=[float(x) for x in got.ravel()[:8]]), [float(x) for x in want[:8]])
+    return n
+
+
+def gas_values_form(vals, k):
+    """The same gas description as the caller may hold it: keys inserted in the documented order, reversed, alphabetically, with extra
+    entries in between, or as a pandas Series sorted by label.  Returns (mapping, description)."""
+    keys = list(vals)
+    kind = k % 5
+    if kind == 0:
+        return dict(vals), "dict, documented key order"
+    if kind == 1:
+        return {q: vals[q] for q in reversed(keys)}, "dict, keys inserted in reverse order"
+    if kind == 2:
+        import pandas as pd
+        return pd.Series(vals).sort_index(), "pandas Series sorted by label"
+    if kind == 3:
+        d = {"Well": "A-1"}
+        for q in sorted(keys, key=lambda x: x[::-1]):
+            d[q] = vals[q]
+            d["note " + q] = 0.5
+        return d, "dict, shuffled key order with unrelated entries in between"
+    return {q: vals[q] for q in sorted(keys)}, "dict, keys inserted alphabetically"
